@@ -1,10 +1,10 @@
 package harness
 
 import (
-	"os"
 	"encoding/binary"
 	"encoding/hex"
 	"fmt"
+	"os"
 	"sort"
 	"strings"
 	"testing"
